@@ -42,6 +42,8 @@ const S_SKIP_LONG: &[u16] = &[M_SKIP, M_SINGLE | M_LEN, M_SINGLE, M_SINGLE | M_C
 const S_LOOPS: &[u16] = &[M_LOOPS];
 const S_END: &[u16] = &[M_SINGLE | M_CHUNK, M_SINGLE | M_CHUNK | M_LEN, M_SINGLE | M_LEN];
 const S_ADAPT: &[u16] = &[M_ADAPT, M_ADAPT | M_LEN];
+/// longer free-form histories (thorough tier, cheap kinds only)
+const S_LONG: &[u16] = &[M_PULLS, M_PULLS | M_LEN | M_SKIP, M_SINGLE | M_CHUNK | M_LEN];
 /// histories in which possibly nothing at all is pulled
 const S_IDLE: &[u16] = &[M_LEN | M_SINGLE, M_LEN | M_CHUNK];
 
@@ -405,4 +407,38 @@ fn kf_array_skip_undropped() {
     drop(it);
     kani::cover!(k == 1, "W: skipped after one pull");
     kf_ledger(3, k);
+}
+
+// ------------------------------------------------------------------------------------------------
+// thorough tier: larger bounds / freer histories on the cheap kinds
+// @verif family=SEQ thorough=C01,C02,C03,C04,C05,C06,C10,C11 timeout=3600 mem=24
+// @bounds kind=&[u8] len<=4; prefix<=4 next(); any pull (single / chunk n<=len+2 / buffered x2); any pull or len query or skip_to_end; single/chunk/len; end in {drop, into_seq_iter all/partly}
+#[kani::proof]
+#[kani::unwind(8)]
+fn slice_long() {
+    go_slice(4, 4, S_LONG, E_ALL, wit_some);
+}
+
+// @verif family=SEQ thorough=C01,C02,C03,C04,C05,C06,C10,C11 timeout=3600 mem=24
+// @bounds kind=Range<usize> start<=5, len<=4; prefix<=4 next(); any pull; any pull or len query or skip_to_end; single/chunk/len; end in {drop, into_seq_iter all/partly}
+#[kani::proof]
+#[kani::unwind(8)]
+fn range_long() {
+    go_range(4, 4, S_LONG, E_ALL, wit_some);
+}
+
+// @verif family=SEQ thorough=C01,C03,C04,C05,C06,C09,C10,C11 timeout=3600 mem=24
+// @bounds kind=ConIterOfIter<usize,Probe> len<=3, all size hints, buffered chunk size 2; prefix<=3 next(); any pull; any pull or len query or skip_to_end; single/chunk/len; end in {drop, into_seq_iter all/partly}
+#[kani::proof]
+#[kani::unwind(7)]
+fn iter_long() {
+    go_iter_n(3, 3, S_LONG, E_ALL, wit_some, 2);
+}
+
+// @verif family=SEQ thorough=C08,C03,C10 timeout=3600 mem=24
+// @bounds kind=Vec<Tracked> len<=3 capacity 4; prefix<=3 next(); any pull; any pull or len query or skip_to_end; single/chunk/len; end in {drop, into_seq_iter all/partly}; drop ledger
+#[kani::proof]
+#[kani::unwind(7)]
+fn vec_long() {
+    go_vec(3, 3, S_LONG, E_ALL, wit_some);
 }
